@@ -116,4 +116,27 @@ def text_conserved_full : Prop :=
   ∀ (cl : Nat → Nat) (chunks : List (List UInt8)), (∀ b ∈ streamOf chunks, 0x20 ≤ b) →
     flat (runChunks handTable cl (natChunks chunks)) = (decodeRunes (streamOf chunks)).map .print ++ [.eof]
 
+
+/-- **Each Print is one grapheme cluster — unless cut by a read boundary.**  For a stream of bytes
+    ≥ 0x20, every split into reads and **any** oracle (no hypothesis at all; in particular any
+    `cluster` with `0 < cluster l ≤ l.length`): the items are Prints then `EOF{}`; the Prints are
+    consecutive, non-empty blocks of the units of the stream, in order, covering it exactly (nothing
+    lost, duplicated or reordered); a block starting at byte offset `pos` has at most
+    `max 1 (cl pos)` units, and fewer only if it ends exactly at a read boundary.  What a Print
+    carries is `render block`: the first unit as `readRune` reads it (raw-byte fallback), the others
+    as the look-ahead's `ReadRune` reads them — U+FFFD for an invalid byte: that, and only that, is
+    the alteration of finding F102d. -/
+theorem text_blocks (cl : Nat → Nat) (chunks : List (List UInt8)) (htext : ∀ b ∈ streamOf chunks, 0x20 ≤ b) :
+    ∃ blocks : List (List U),
+      runChunks handTable cl (natChunks chunks) = blocks.map (fun b => Item.print (render b)) ++ [.seq .eof] ∧
+      blocks.flatten = units (streamOf chunks) ∧ BlocksOk cl (IsCut (natChunks chunks)) 0 blocks :=
+  runChunks_blocks cl (natChunks chunks) htext
+
+-- the block structure on a concrete stream: "e" + U+0301 split inside the combining mark, oracle joining them
+example : runChunks handTable (fun p => if p = 0 then 2 else 1) (natChunks [[0x65, 0xCC], [0x81, 0x41]]) =
+    [.print [0x65, 0x301], .print [0x41], .seq .eof] := by decide
+-- … and cut by the read boundary when the mark arrives in the next read
+example : runChunks handTable (fun p => if p = 0 then 2 else 1) (natChunks [[0x65], [0xCC, 0x81, 0x41]]) =
+    [.print [0x65], .print [0x301], .print [0x41], .seq .eof] := by decide
+
 end VaxisModel.Props.C02Text
